@@ -4,8 +4,8 @@
 # LiteralConverter
 SPEC("pane.converters", "LiteralConverter.try_convert",
      shapes={"self.vals": "seq"},
-     returns_iff=(lambda self, val: val in self.vals, ["C01", "C03"]),
-     ensures=[(lambda self, val, result: result is val, ["C01"], "val")],
+     returns_iff=(lambda self, val: val in self.vals, ["C01", "C03", "C05", "C06"]),
+     ensures=[(lambda self, val, result: result is val, ["C01", "C05", "C06"], "val")],
      raises=(lambda self, val, exc: exc_is(exc, ParseInterrupt), ["C04"]))
 
 SPEC("pane.converters", "LiteralConverter.collect_errors",
@@ -27,8 +27,8 @@ def ACC_Conditional(self, val):
 
 SPEC("pane.converters", "ConditionalConverter.try_convert",
      shapes={"self.inner": "conv", "self.condition": "callable"},
-     returns_iff=(lambda self, val: ACC_Conditional(self, val), ["C13", "C01", "C03"]),
-     ensures=[(lambda self, val, result: result == out(self.inner, val), ["C13", "C01"], "val")],
+     returns_iff=(lambda self, val: ACC_Conditional(self, val), ["C13", "C01", "C03", "C05", "C06"]),
+     ensures=[(lambda self, val, result: result == out(self.inner, val), ["C13", "C01", "C05", "C06"], "val")],
      raises=(lambda self, val, exc: exc_is(exc, ParseInterrupt), ["C04", "C13"]))
 
 SPEC("pane.converters", "ConditionalConverter.collect_errors",
@@ -55,8 +55,8 @@ def ACC_Delegate(self, val):
 
 SPEC("pane.converters", "DelegateConverter.try_convert",
      shapes={"self.inner": "conv", "self.constructor": "callable"},
-     returns_iff=(lambda self, val: ACC_Delegate(self, val), ["C01", "C03"]),
-     ensures=[(lambda self, val, result: result == call(self.constructor, out(self.inner, val)), ["C01"], "val")],
+     returns_iff=(lambda self, val: ACC_Delegate(self, val), ["C01", "C03", "C05", "C06"]),
+     ensures=[(lambda self, val, result: result == call(self.constructor, out(self.inner, val)), ["C01", "C05", "C06"], "val")],
      raises=(lambda self, val, exc: exc_is(exc, ParseInterrupt), ["C04"]))
 
 SPEC("pane.converters", "DelegateConverter.collect_errors",
@@ -83,8 +83,8 @@ def ACC_Enum(self, val):
 SPEC("pane.converters", "EnumConverter.try_convert",
      shapes={"self.inner_conv": "conv", "self.val_map": "map"},
      requires=lambda self, val: wf_Enum(self),
-     returns_iff=(lambda self, val: ACC_Enum(self, val), ["C01", "C03"]),
-     ensures=[(lambda self, val, result: result == mget(self.val_map, out(self.inner_conv, val)), ["C01"], "val")],
+     returns_iff=(lambda self, val: ACC_Enum(self, val), ["C01", "C02", "C03", "C05", "C06"]),
+     ensures=[(lambda self, val, result: result == mget(self.val_map, out(self.inner_conv, val)), ["C01", "C05", "C06"], "val")],
      raises=(lambda self, val, exc: exc_is(exc, ParseInterrupt), ["C04"]))
 
 SPEC("pane.converters", "EnumConverter.collect_errors",
@@ -107,8 +107,8 @@ def ACC_Pattern(self, val):
 
 SPEC("pane.converters", "PatternConverter.try_convert",
      shapes={"self.ty_conv": "conv"},
-     returns_iff=(lambda self, val: ACC_Pattern(self, val), ["C01", "C03", "C06"]),
-     ensures=[(lambda self, val, result: result == re_compile(out(self.ty_conv, pat_src(val))), ["C01"], "val")],
+     returns_iff=(lambda self, val: ACC_Pattern(self, val), ["C01", "C03", "C06", "C05"]),
+     ensures=[(lambda self, val, result: result == re_compile(out(self.ty_conv, pat_src(val))), ["C01", "C05", "C06"], "val")],
      raises=(lambda self, val, exc: exc_is(exc, ParseInterrupt), ["C04"]))
 
 SPEC("pane.converters", "PatternConverter.collect_errors",
@@ -160,8 +160,8 @@ def ACC_Tagged(self, val):
 SPEC("pane.converters", "TaggedUnionConverter.try_convert",
      shapes={"val": "map", "self.tag_map": "map", "self.converters": "seq", "self.tag": "str", "t_r": "str", "c_r": "str"},
      requires=lambda self, val: wf_Tagged(self),
-     returns_iff=(lambda self, val: ACC_Tagged(self, val), ["C12", "C01", "C03"]),
-     ensures=[(lambda self, val, result: result == out(tagged_variant(self, val), tagged_body(self, val)), ["C12", "C01"], "val")],
+     returns_iff=(lambda self, val: ACC_Tagged(self, val), ["C12", "C01", "C03", "C05", "C06"]),
+     ensures=[(lambda self, val, result: result == out(tagged_variant(self, val), tagged_body(self, val)), ["C12", "C01", "C05", "C06"], "val")],
      raises=(lambda self, val, exc: exc_is(exc, ParseInterrupt), ["C04", "C12"]))
 
 SPEC("pane.converters", "TaggedUnionConverter.collect_errors",
